@@ -97,7 +97,11 @@ class SArr(Sym):
             if len(idx) == 1:
                 k = idx[0]
                 if isinstance(k, SArr) and k.dtype == "bool":
-                    raise Unsupported("boolean-mask read")
+                    # x[mask]: some of the entries, in order - abstracted to a fresh vector of at most len(x) unconstrained entries
+                    cnt = I.ctx.fresh("mask.n", I_)
+                    I.ctx.assume(z3.And(cnt >= 0, cnt <= self.n0))
+                    f = z3.Function(str(I.ctx.fresh("mask.el", I_)), I_, R if self.dtype != "bool" else z3.BoolSort())
+                    return SArr(1, cnt, z3.IntVal(1), lambda i, j: f(i), self.dtype, True)
                 if isinstance(k, SArr):       # fancy indexing of a vector by an integer vector
                     kk = k.at
                     return SArr(1, k.n0, z3.IntVal(1), lambda i, j: a(z3.ToInt(kk(i, 0)), 0), self.dtype, True)
@@ -329,6 +333,17 @@ class SArr(Sym):
             return self
         if name == "sum" and not args and not kwargs:
             return SReal(I.ctx.fresh("arrsum", R))
+        if name == "sort" and not args and not kwargs and self.ndim == 1:
+            # in-place ascending sort: same length, ascending, every entry an entry of the old vector and vice versa
+            I.ctx.oblige("fresh-write", z3.BoolVal(bool(self.fresh)), I.line(node), note="in-place sort of an array allocated here")
+            f = z3.Function(str(I.ctx.fresh("sorted.el", I_)), I_, R)
+            i, j = z3.Ints("so_i so_j")
+            n = self.n0
+            I.ctx.assume(z3.ForAll([i, j], z3.Implies(z3.And(0 <= i, i <= j, j < n), f(i) <= f(j))))
+            I.ctx.assume(z3.ForAll([i], z3.Implies(z3.And(0 <= i, i < n), z3.Exists([j], z3.And(0 <= j, j < n, f(i) == a(j, 0))))))
+            I.ctx.assume(z3.ForAll([j], z3.Implies(z3.And(0 <= j, j < n), z3.Exists([i], z3.And(0 <= i, i < n, f(i) == a(j, 0))))))
+            self.at = lambda i, j: f(i)
+            return None
         raise Unsupported(f"{I.frame.qualname}:{I.line(node)} ndarray.{name}")
 
     def __repr__(self):
@@ -676,10 +691,93 @@ def khatri_rao(I, a, kw, node):
     return SArr(2, z3.simplify(A.n0 * p), A.n1, at, "num", True)
 
 
+def np_any(I, a, kw, node):
+    return a[0].method(I, "any", [], {}, node)
+
+
+def np_all(I, a, kw, node):
+    return a[0].method(I, "all", [], {}, node)
+
+
+def np_linspace(I, a, kw, node):
+    """np.linspace(lo, hi, num): num samples, an uninterpreted function of (lo, hi, num, position) that starts at lo and stays
+    between lo and hi (the closed form lo + i*(hi-lo)/(num-1) is nonlinear in num and not needed by the proofs; validated by
+    ext-valid). num >= 0 is an obligation (numpy raises otherwise)."""
+    from .opaque import ufun
+    lo, hi, num = rterm(a[0]), rterm(a[1]), int_term(a[2] if len(a) > 2 else kw["num"])
+    if not I.ctx.spec_mode:
+        I.ctx.oblige("shape", num >= 0, I.line(node), note="np.linspace: non-negative number of samples")
+    lin = ufun("np.linspace", R, R, I_, I_, R)
+    i = z3.Int("ls_i")
+    n = z3.Int("ls_n")
+    I.ctx.assume(z3.ForAll([n, i], z3.Implies(z3.And(0 <= i, i < n, lo <= hi), z3.And(lo <= lin(lo, hi, n, i), lin(lo, hi, n, i) <= hi)),
+                           patterns=[lin(lo, hi, n, i)]))
+    return SArr(1, z3.simplify(num), z3.IntVal(1), lambda i, j: lin(lo, hi, num, i), "num", True)
+
+
+def _vec_lambda(x):
+    i = z3.Int("red_i")
+    return z3.Lambda([i], x.at(i, z3.IntVal(0)))
+
+
+def np_percentile(I, a, kw, node):
+    """np.percentile(x, q) for a vector q: one value per entry of q, a function of the data and of q[i]; for 0 <= q[i] <= 100
+    and non-empty x it lies between min(x) and max(x) (assumed; validated by ext-valid)."""
+    from .opaque import ufun
+    x, q = a[0], a[1]
+    if not isinstance(x, SArr) or not isinstance(q, SArr):
+        raise Unsupported("np.percentile of non-arrays")
+    import hashlib
+    A = z3.ArraySort(I_, R)
+    mn, mx = ufun("np.min", I_, A, R), ufun("np.max", I_, A, R)
+    xl = _vec_lambda(x)
+    # one function symbol per data vector (named by the vector's term), so that patterns need not mention the lambda
+    key = hashlib.sha1((x.n0.sexpr() + "|" + xl.sexpr()).encode()).hexdigest()[:16]
+    pct = ufun("np.percentile!" + key, R, R)
+    v = z3.Real("pc_v")
+    I.ctx.assume(z3.ForAll([v], z3.Implies(z3.And(0 <= v, v <= 100, x.n0 >= 1),
+                                           z3.And(mn(x.n0, xl) <= pct(v), pct(v) <= mx(x.n0, xl))), patterns=[pct(v)]))
+    return SArr(1, q.n0, z3.IntVal(1), lambda i, j: pct(q.at(i, 0)), "num", True)
+
+
+def _as_vec(I, v):
+    """python list / SList of numbers / vector -> (length term, entry closure)."""
+    if isinstance(v, SArr):
+        v.resolve_rank(I)
+        if v.ndim != 1:
+            raise Unsupported("np.concatenate of a non-vector")
+        return v.n0, (lambda i: v.at(i, z3.IntVal(0)))
+    if isinstance(v, (list, tuple)):
+        terms = [rterm(e) for e in v]
+
+        def at(i):
+            r = terms[-1] if terms else z3.RealVal(0)
+            for k in range(len(terms) - 2, -1, -1):
+                r = z3.If(i == k, terms[k], r)
+            return r
+        return z3.IntVal(len(v)), at
+    if isinstance(v, SList):
+        from .values import TReal, TInt
+        if isinstance(v.elem, TReal):
+            return v.len, (lambda i: v.arr[i])
+        if isinstance(v.elem, TInt):
+            return v.len, (lambda i: z3.ToReal(v.arr[i]))
+    raise Unsupported(f"np.concatenate operand {v!r}")
+
+
+def np_concatenate(I, a, kw, node):
+    parts = a[0]
+    if not isinstance(parts, (list, tuple)) or len(parts) != 2:
+        raise Unsupported("np.concatenate of other than two vectors")
+    (n0, f0), (n1, f1) = _as_vec(I, parts[0]), _as_vec(I, parts[1])
+    return SArr(1, z3.simplify(n0 + n1), z3.IntVal(1), lambda i, j: z3.If(i < n0, f0(i), f1(i - n0)), "num", True)
+
+
 def external_objects():
     import numpy as np
     from scipy import linalg
-    return {np.eye: np_eye, np.zeros: np_zeros, np.ones: np_ones, np.empty: np_empty, np.vstack: np_vstack,
+    return {np.any: np_any, np.all: np_all, np.linspace: np_linspace, np.percentile: np_percentile, np.concatenate: np_concatenate,
+            np.eye: np_eye, np.zeros: np_zeros, np.ones: np_ones, np.empty: np_empty, np.vstack: np_vstack,
             np.column_stack: np_column_stack, np.copy: np_copy, np.mod: np_mod, np.less_equal: np_less_equal, np.greater: _np_cmp('>'), np.less: _np_cmp('<'),
             np.greater_equal: _np_cmp('>='), np.equal: _np_cmp('=='), np.not_equal: _np_cmp('!='), np.asarray: np_asarray, np.where: np_where,
             linalg.khatri_rao: khatri_rao}
